@@ -45,6 +45,9 @@ class Ctx:
         self.world = world
         self.w = world
         self.ix = inter.Inter(world)
+        # caller paths are split over the success paths of pure multi-path helpers (value helpers extracted by a
+        # refactoring look like inline code again); C02 evaluates such helpers abstractly itself (sign tables)
+        self.ix.expand_pure = prop not in ("C02",)
         self.tier = tier
         self.insts = []
         self.floors = {}
